@@ -259,6 +259,15 @@ def _cast(fn, v, catch):
         raise Rej()
 
 
+def collapse(r):
+    """Member of a container whose reference is a set of alternatives: a single stored value or unspecified."""
+    if r[0] == "acc-any":
+        if not r[2] and all(eq(a[1], r[1][0][1]) for a in r[1]):
+            return r[1][0]
+        return (UNSPEC,)
+    return r
+
+
 def ref(spec, v, owner=None):
     """Documented behaviour of assigning v to the trait described by spec."""
     try:
@@ -353,14 +362,16 @@ def _ref(spec, v, owner):
     if k == "TupleAny":
         if type(v) is tuple:
             return (ACC, v)
-        if isinstance(v, tuple):
-            return (UNSPEC,)
+        if isinstance(v, (tuple, list)):
+            return (UNSPEC,)      # lists are converted by the implementation; the documentation is silent
         raise Rej()
     if k == "Tuple":
+        if isinstance(v, list) and len(v) == len(spec[1]):
+            return (UNSPEC,)
         if isinstance(v, tuple) and len(v) == len(spec[1]):
             outs = []
             for s, x in zip(spec[1], v):
-                r = _ref(s, x, owner)
+                r = collapse(_ref(s, x, owner))
                 if r[0] == UNSPEC:
                     return (UNSPEC,)
                 outs.append(r[1])
@@ -427,7 +438,7 @@ def _ref(spec, v, owner):
             raise Rej()
         outs = []
         for x in v:
-            r = _ref(spec[1], x, owner)
+            r = collapse(_ref(spec[1], x, owner))
             if r[0] == UNSPEC:
                 return (UNSPEC,)
             outs.append(r[1])
@@ -437,7 +448,7 @@ def _ref(spec, v, owner):
             raise Rej()
         outs = set()
         for x in v:
-            r = _ref(spec[1], x, owner)
+            r = collapse(_ref(spec[1], x, owner))
             if r[0] == UNSPEC:
                 return (UNSPEC,)
             outs.add(r[1])
@@ -447,7 +458,7 @@ def _ref(spec, v, owner):
             raise Rej()
         outs = {}
         for a, b in v.items():
-            ra, rb = _ref(spec[1], a, owner), _ref(spec[2], b, owner)
+            ra, rb = collapse(_ref(spec[1], a, owner)), collapse(_ref(spec[2], b, owner))
             if UNSPEC in (ra[0], rb[0]):
                 return (UNSPEC,)
             outs[ra[1]] = rb[1]
@@ -466,6 +477,9 @@ def _ref(spec, v, owner):
                 continue
             if r[0] == ACC:
                 results.append(r)
+            elif r[0] == "acc-any":
+                results.extend(r[1])
+                unspec = unspec or r[2]
             elif r[0] == UNSPEC:
                 unspec = True
         if results:
@@ -542,7 +556,9 @@ def in_domain(spec, x, owner=None):
         rs = [in_domain(s, i, owner) for s, i in zip(spec[1], x)]
         return False if False in rs else (None if None in rs else True)
     if k == "Instance":
-        return (x is None and spec[2]) or (x is not None and isinstance(x, CLASSES[spec[1]]))
+        # adapt='default' stores the default (None here) for a value that cannot be adapted
+        none_ok = spec[2] or (len(spec) > 3 and spec[3] == "default")
+        return (x is None and none_ok) or (x is not None and isinstance(x, CLASSES[spec[1]]))
     if k == "Type":
         return (x is None and spec[2]) or (isinstance(x, type) and issubclass(x, CLASSES[spec[1]]))
     if k == "This":
@@ -609,6 +625,27 @@ def grid():
         g.append(["Either", alts])
         g.append(["Union", alts])
     return g
+
+
+def may_overflow(v):
+    """Does some numeric conversion (int(), float(), complex()) of the value or of a nested item overflow?"""
+    if isinstance(v, bool):
+        return False
+    if isinstance(v, int):
+        return abs(v) > 2 ** 53
+    if isinstance(v, float):
+        return v != v or v in (inf, -inf)
+    if isinstance(v, complex):
+        return may_overflow(v.real) or may_overflow(v.imag)
+    if isinstance(v, (Idx, Flt, Cpx)):
+        return isinstance(v.v, (int, float)) and may_overflow(v.v)
+    if isinstance(v, (np.generic, fractions.Fraction, decimal.Decimal)):
+        return True
+    if isinstance(v, (tuple, list, set, frozenset)):
+        return any(may_overflow(x) for x in v)
+    if isinstance(v, dict):
+        return any(may_overflow(x) for x in v) or any(may_overflow(x) for x in v.values())
+    return False
 
 
 def mentions(spec, name):
